@@ -165,5 +165,14 @@ def retarder (c s : K) (p x : Cx K) : J2 K :=
 /-- `LinearPolarizer.jones_matrix`: `[[c², cs], [cs, s²]]`. -/
 def polarizer (c s : K) : J2 K := ⟨⟨c * c, 0⟩, ⟨c * s, 0⟩, ⟨c * s, 0⟩, ⟨s * s, 0⟩⟩
 
+/-- The two ports of a polarising beam splitter behind a retarder `r` (the identity for
+`LinearPolarizingBeamSplitter`, a quarter-wave plate at 45° for `CircularPolarizingBeamSplitter`), Jones-matrix
+wavefront: `P(θ)·r·E` and `P(θ+π/2)·r·E`. -/
+def splitterPorts (c s : K) (r e : J2 K) : J2 K × J2 K := (polarizer c s * (r * e), polarizer (-s) c * (r * e))
+
+/-- … Jones-vector wavefront. -/
+def splitterPortsV (c s : K) (r : J2 K) (e : V2 K) : V2 K × V2 K :=
+  ((polarizer c s).apply (r.apply e), (polarizer (-s) c).apply (r.apply e))
+
 end
 end HcipyVerif.Jones
